@@ -130,6 +130,33 @@ def seeded_for(prop=None):
     return out
 
 
+BENIGN_DIR = os.path.join(os.path.dirname(os.path.dirname(os.path.abspath(__file__))), "benign")
+
+
+def benign_all():
+    import glob
+    return sorted(os.path.basename(os.path.dirname(m)) for m in glob.glob(os.path.join(BENIGN_DIR, "*", "meta.json")))
+
+
+def eval_benign(args):
+    """A recorded behaviour-preserving refactoring must leave the property's check silent."""
+    bid, prop, root = args
+    ov = seed_overrides(root, os.path.join(BENIGN_DIR, bid, "patch.diff"))
+    if ov is None:
+        return (bid, prop, "skipped", "recorded refactoring no longer applies to this tree")
+    try:
+        sink = _run(prop, root, ov)
+    except Exception as exc:  # pylint: disable=broad-except
+        return (bid, prop, "error", f"{type(exc).__name__}: {exc}")
+    bad = [o for o in sink.obs if o.verdict == VIOLATED]
+    unk = [o for o in sink.obs if o.verdict == UNRECOGNISED]
+    if bad:
+        return (bid, prop, "false-alarm", f"{bad[0].rule} [{bad[0].key}] {bad[0].msg[:160]}")
+    if unk:
+        return (bid, prop, "benign-unrecognised", f"{unk[0].rule}: {unk[0].msg[:160]}")
+    return (bid, prop, "silent", "")
+
+
 def eval_seed(args):
     sid, prop, root = args
     ov = seed_overrides(root, os.path.join(SEEDED_DIR, sid, "patch.diff"))
@@ -176,15 +203,23 @@ def run_for_property(prop, root, sink):
     workers = min(16, os.cpu_count() or 4)
     vargs = [(n, p, root) for n, p in jobs_for(prop)]
     sargs = [(n, p, root) for n, p in seeded_for(prop)]
-    if len(vargs) + len(sargs) <= 2:
+    bargs = [(b, prop, root) for b in benign_all()]
+    if len(vargs) + len(sargs) + len(bargs) <= 2:
         res = [eval_variant(a) for a in vargs]
         sres = [eval_seed(a) for a in sargs]
+        bres = [eval_benign(a) for a in bargs]
     else:
         with ProcessPoolExecutor(max_workers=workers) as ex:
             fv = ex.map(eval_variant, vargs, chunksize=2)
             fs = ex.map(eval_seed, sargs, chunksize=1)
-            res, sres = list(fv), list(fs)
-    tally, stally, warnings = {}, {}, []
+            fb = ex.map(eval_benign, bargs, chunksize=1)
+            res, sres, bres = list(fv), list(fs), list(fb)
+    tally, stally, btally, warnings = {}, {}, {}, []
+    for _n, _p, st, _d in bres:
+        btally[st] = btally.get(st, 0) + 1
+    for n, p, st, d in bres:
+        if st in ("false-alarm", "benign-unrecognised", "error"):
+            warnings.append(f"recorded behaviour-preserving refactoring '{n}' makes the check fire ({st}): {d}")
     for _n, _p, st, _d in res:
         tally[st] = tally.get(st, 0) + 1
     for _n, _p, st, _d in sres:
@@ -212,6 +247,11 @@ def run_for_property(prop, root, sink):
             "evaluated": len(sres),
             "tally": stally,
             "results": [{"id": n, "status": st, "detail": d} for n, _p, st, d in sres],
+        },
+        "benign_refactorings": {
+            "evaluated": len(bres),
+            "tally": btally,
+            "not_silent": [{"id": n, "status": st, "detail": d} for n, _p, st, d in bres if st != "silent"],
         },
         "sensitivity_warnings": warnings,
     }
